@@ -57,6 +57,14 @@ struct Inner {
     panics: Vec<(usize, String)>,
     /// Set when the run is abandoned: parked threads run free.
     abort: bool,
+    /// If set, only these labels are subject to stutter detection (see [`Opts`]).
+    stutter_labels: Option<&'static [&'static str]>,
+    /// Consecutive returns to the same label after which a thread counts as blocked (see [`Opts`]).
+    stutter_after: usize,
+    /// Consecutive returns of a thread to the label it was resumed from.
+    returns: Vec<usize>,
+    /// The thread's last step certainly made progress (it parked at a different label or finished).
+    definite: Vec<bool>,
 }
 
 struct Shared {
@@ -79,8 +87,18 @@ fn park(label: &'static str) {
     if g.abort {
         return;
     }
-    let stutter = is_lock_label(label) && g.resumed_from[tid] == Some(label);
-    g.stutter[tid] = stutter;
+    let may_block = match g.stutter_labels {
+        Some(list) => list.contains(&label),
+        None => is_lock_label(label),
+    };
+    let same = may_block && g.resumed_from[tid] == Some(label);
+    if same {
+        g.returns[tid] += 1;
+    } else {
+        g.returns[tid] = 0;
+    }
+    g.definite[tid] = !same;
+    g.stutter[tid] = same && g.returns[tid] >= g.stutter_after.max(1);
     g.threads[tid] = TState::Waiting(label);
     sh.cv.notify_all();
     while g.threads[tid] != TState::Running && !g.abort {
@@ -239,6 +257,31 @@ pub const STEP_BOUND: usize = 100_000;
 /// every decision and once after the last thread finished, while *all* participants are parked, so
 /// it may inspect shared state race-free; returning `Err` abandons the schedule.
 pub fn run(jobs: Vec<Job>, chooser: &mut dyn Chooser, on_step: &mut dyn FnMut(&[Event]) -> Result<(), String>) -> Outcome {
+    run_opts(jobs, chooser, on_step, &Opts::default())
+}
+
+/// Options of [`run_opts`].
+#[derive(Clone, Copy, Debug, Default)]
+pub struct Opts {
+    /// Labels at which a thread can really be blocked (a lock that some *parked* participant may
+    /// hold across a yield point). `None` = every `sync.*` / `history.*` label (the default rule).
+    /// With `Some(list)` a thread that comes back to a label outside the list is never taken for a
+    /// failed try-lock: two consecutive acquisitions of *different* locks that share a label (e.g.
+    /// `running.write()` followed by `updated.write()`, or `history.write` in `update` followed by
+    /// `history.write` in `mark_update_done`) then stay two independently schedulable steps instead
+    /// of the second one being disabled until another thread has moved.
+    pub stutter_labels: Option<&'static [&'static str]>,
+    /// How often a thread must come back to the same lock label in a row (nobody else having made
+    /// progress) before it is taken for blocked. 0/1 = at once (the default rule). With 2, the first
+    /// return is presumed to be progress (a second lock with the same label), so the thread stays
+    /// schedulable once more; if it really was a failed try-lock the retry fails again and the
+    /// thread is disabled then. Costs one wasted step per blocked attempt, loses no schedule for
+    /// pairs of same-label acquisitions.
+    pub stutter_after: usize,
+}
+
+/// Like [`run`] with explicit options.
+pub fn run_opts(jobs: Vec<Job>, chooser: &mut dyn Chooser, on_step: &mut dyn FnMut(&[Event]) -> Result<(), String>, opts: &Opts) -> Outcome {
     install();
     let n = jobs.len();
     let sh = Arc::new(Shared {
@@ -249,6 +292,10 @@ pub fn run(jobs: Vec<Job>, chooser: &mut dyn Chooser, on_step: &mut dyn FnMut(&[
             trace: Vec::new(),
             panics: Vec::new(),
             abort: false,
+            stutter_labels: opts.stutter_labels,
+            stutter_after: opts.stutter_after,
+            returns: vec![0; n],
+            definite: vec![true; n],
         }),
         cv: Condvar::new(),
     });
@@ -269,6 +316,7 @@ pub fn run(jobs: Vec<Job>, chooser: &mut dyn Chooser, on_step: &mut dyn FnMut(&[
                 g.panics.push((tid, msg));
             }
             g.threads[tid] = TState::Done;
+            g.definite[tid] = true;
             g.trace.push(Event::Done { tid });
             sh2.cv.notify_all();
         });
@@ -314,6 +362,9 @@ pub fn run(jobs: Vec<Job>, chooser: &mut dyn Chooser, on_step: &mut dyn FnMut(&[
             for s in g.stutter.iter_mut() {
                 *s = false;
             }
+            for r in g.returns.iter_mut() {
+                *r = 0;
+            }
             enabled = waiting.clone();
         }
         if steps >= STEP_BOUND {
@@ -334,11 +385,12 @@ pub fn run(jobs: Vec<Job>, chooser: &mut dyn Chooser, on_step: &mut dyn FnMut(&[
         }
         // Only a real step (not a failed try-lock) can unblock the others; a stutter step only
         // disables the stuttering thread, so runs of stutter steps are finite.
-        if !g.stutter[tid] {
+        if g.definite[tid] {
             free_rounds = 0;
-            for (i, s) in g.stutter.iter_mut().enumerate() {
+            for i in 0..n {
                 if i != tid {
-                    *s = false;
+                    g.stutter[i] = false;
+                    g.returns[i] = 0;
                 }
             }
         }
